@@ -117,11 +117,10 @@ Proof. intros H. apply local_tick_invisible. intros (w & Hin & Hw). specialize (
 (* ---------- local deletion: index entries are exactly the expiries that were asked for ---------- *)
 Definition requested (ts : Z) (c : cmd) (e : tkey * unit) : Prop :=
   match c with
-  | CSetEx k d _ => e = ((d + sec ts, TK, k), tt)
-  | CExpire TK k d => e = ((sec ts + d, TK, k), tt)
-  | CExpire t k d => e = ((d + sec ts, t, k), tt)
-  | CSetOpt k _ ttl _ _ => 0 < ttl /\ e = ((ttl + sec ts, TK, k), tt)
-  | CSetIfEq k _ _ ttl => 0 < ttl /\ e = ((ttl + sec ts, TK, k), tt)
+  | CSetEx k d _ => 0 < d /\ expire_when ts d = Some (fst (fst (fst e))) /\ e = ((fst (fst (fst e)), TK, k), tt)
+  | CExpire t k d => expire_when ts d = Some (fst (fst (fst e))) /\ e = ((fst (fst (fst e)), t, k), tt)
+  | CSetOpt k _ ttl _ _ => 0 < ttl /\ expire_when ts ttl = Some (fst (fst (fst e))) /\ e = ((fst (fst (fst e)), TK, k), tt)
+  | CSetIfEq k _ _ ttl => 0 < ttl /\ expire_when ts ttl = Some (fst (fst (fst e))) /\ e = ((fst (fst (fst e)), TK, k), tt)
   | _ => False
   end.
 
@@ -157,10 +156,11 @@ Proof.
   unfold el_put. cbn [tidx]. apply tidx_incr_size.
 Qed.
 Lemma tidx_kv_reset s ts k v ttl s' e : kv_reset Local s ts k v ttl = Some s' -> In e (tidx s') ->
-  In e (tidx s) \/ (0 < ttl /\ e = ((ttl + sec ts, TK, k), tt)).
+  In e (tidx s) \/ (0 < ttl /\ expire_when ts ttl = Some (fst (fst (fst e))) /\ e = ((fst (fst (fst e)), TK, k), tt)).
 Proof.
-  unfold kv_reset. destruct (ttl <=? 0) eqn:E; intros X; inversion X; subst; cbn [tidx kv_put]; auto.
-  intros H. apply In_tidx_add in H as [-> | H]; auto. right. split; auto. lia.
+  unfold kv_reset. destruct (ttl <=? 0) eqn:E; [intros X; inversion X; subst; cbn [tidx kv_put]; auto|].
+  destruct (expire_when ts ttl) as [w|] eqn:W; intros X; inversion X; subst. cbn [tidx kv_put].
+  intros H. apply In_tidx_add in H as [-> | H]; auto. right. cbn [fst]. repeat split; auto. lia.
 Qed.
 Lemma tidx_do_mset ts kvl : forall s, tidx (do_mset Local s ts kvl) = tidx s.
 Proof. induction kvl as [|[a b] kvl IH]; intros s; simpl; auto. now rewrite IH. Qed.
@@ -179,7 +179,7 @@ Proof.
   - (* set *) unfold do_set. cbn. auto.
   - (* setex *) unfold do_setex. destruct (dur <=? 0); cbn [fst]; auto.
     destruct (kv_reset Local s ts k v dur) eqn:R; cbn [fst]; auto.
-    intros H. destruct (tidx_kv_reset _ _ _ _ _ _ _ R H) as [|[_ ->]]; auto.
+    intros H. destruct (tidx_kv_reset _ _ _ _ _ _ _ R H) as [|X]; auto.
   - (* setnx *) unfold do_setnx. destruct (kv_prepare Local s ts k) as [[h ov] ex]. destruct (kv_cur ov ex); cbn; auto.
   - (* getset *) unfold do_getset. destruct (kv_raw Local s ts k) as [[h ov] ex]. cbn. auto.
   - (* mset *) destruct kvl; cbn [fst]; auto. rewrite tidx_do_mset. auto.
@@ -194,22 +194,27 @@ Proof.
     + match goal with |- context [if ?c then _ else _] => destruct c end; cbn [fst]; auto.
       destruct (kv_prepare Local s ts k) as [[h ov] ex]. cbn [fst]; auto.
   - (* del *) unfold do_del. cbn [fst]. rewrite tidx_fold; auto.
-  - (* expire *) unfold do_expire. destruct t.
+  - (* expire *) unfold do_expire. destruct (expire_when ts dur) as [w|] eqn:W; destruct t.
     + unfold kv_set_expire. destruct (kv_raw Local s ts k) as [[h ov] ex]. destruct ov; cbn [fst]; auto.
-      destruct ex; cbn [fst]; auto. destruct (sec ts + dur =? 0); cbn [fst]; auto.
+      destruct ex; cbn [fst]; auto. destruct (w =? 0); cbn [fst]; auto.
       intros H. apply In_tidx_add in H as [-> | H]; auto.
     + unfold coll_set_expire. destruct (coll_header Local s ts TH k) as [[h ud] ex]. destruct ud as [[a b]|]; cbn [fst]; auto.
-      destruct ex; cbn [fst]; auto. destruct (dur + sec ts =? 0); cbn [fst]; auto.
+      destruct ex; cbn [fst]; auto. destruct (w =? 0); cbn [fst]; auto.
       intros H. apply In_tidx_add in H as [-> | H]; auto.
     + unfold coll_set_expire. destruct (coll_header Local s ts TS k) as [[h ud] ex]. destruct ud as [[a b]|]; cbn [fst]; auto.
-      destruct ex; cbn [fst]; auto. destruct (dur + sec ts =? 0); cbn [fst]; auto.
+      destruct ex; cbn [fst]; auto. destruct (w =? 0); cbn [fst]; auto.
       intros H. apply In_tidx_add in H as [-> | H]; auto.
     + unfold coll_set_expire. destruct (coll_header Local s ts TZ k) as [[h ud] ex]. destruct ud as [[a b]|]; cbn [fst]; auto.
-      destruct ex; cbn [fst]; auto. destruct (dur + sec ts =? 0); cbn [fst]; auto.
+      destruct ex; cbn [fst]; auto. destruct (w =? 0); cbn [fst]; auto.
       intros H. apply In_tidx_add in H as [-> | H]; auto.
     + unfold coll_set_expire. destruct (coll_header Local s ts TL k) as [[h ud] ex]. destruct ud as [[a b]|]; cbn [fst]; auto.
-      destruct ex; cbn [fst]; auto. destruct (dur + sec ts =? 0); cbn [fst]; auto.
+      destruct ex; cbn [fst]; auto. destruct (w =? 0); cbn [fst]; auto.
       intros H. apply In_tidx_add in H as [-> | H]; auto.
+    + unfold kv_set_expire. destruct (kv_raw Local s ts k) as [[h ov] ex]. destruct ov; cbn [fst]; auto. destruct ex; cbn [fst]; auto.
+    + unfold coll_set_expire. destruct (coll_header Local s ts TH k) as [[h ud] ex]. destruct ud as [[a b]|]; cbn [fst]; auto. destruct ex; cbn [fst]; auto.
+    + unfold coll_set_expire. destruct (coll_header Local s ts TS k) as [[h ud] ex]. destruct ud as [[a b]|]; cbn [fst]; auto. destruct ex; cbn [fst]; auto.
+    + unfold coll_set_expire. destruct (coll_header Local s ts TZ k) as [[h ud] ex]. destruct ud as [[a b]|]; cbn [fst]; auto. destruct ex; cbn [fst]; auto.
+    + unfold coll_set_expire. destruct (coll_header Local s ts TL k) as [[h ud] ex]. destruct ud as [[a b]|]; cbn [fst]; auto. destruct ex; cbn [fst]; auto.
   - (* persist: not supported under local deletion *) unfold do_persist. destruct t.
     + unfold kv_set_expire. destruct (kv_raw Local s ts k) as [[h ov] ex]. destruct ov; cbn [fst]; auto. destruct ex; cbn [fst]; auto.
     + unfold coll_set_expire. destruct (coll_header Local s ts TH k) as [[h ud] ex]. destruct ud as [[a b]|]; cbn [fst]; auto. destruct ex; cbn [fst]; auto.
@@ -258,11 +263,11 @@ Proof.
   - (* set with options *) unfold do_setopt. destruct (kv_prepare Local s ts k) as [[h ov] ex].
     destruct (kv_cur ov ex); [destruct nx | destruct xx]; cbn [fst]; auto;
       destruct (kv_reset Local s ts k v ttl) eqn:R; cbn [fst]; auto;
-      intros H; destruct (tidx_kv_reset _ _ _ _ _ _ _ R H) as [|[? ->]]; auto.
+      intros H; destruct (tidx_kv_reset _ _ _ _ _ _ _ R H) as [|X]; auto.
   - (* setifeq *) unfold do_setifeq. destruct (kv_prepare Local s ts k) as [[h ov] ex].
     destruct (eq_cur (kv_cur ov ex) old); cbn [fst]; auto.
     destruct (kv_reset Local s ts k v ttl) eqn:R; cbn [fst]; auto.
-    intros H; destruct (tidx_kv_reset _ _ _ _ _ _ _ R H) as [|[? ->]]; auto.
+    intros H; destruct (tidx_kv_reset _ _ _ _ _ _ _ R H) as [|X]; auto.
   - (* delifeq *) unfold do_delifeq. destruct (kv_raw Local s ts k) as [[h ov] ex].
     destruct (negb (eq_cur ov old) && negb ex); cbn [fst]; auto.
   - (* ltrim *) unfold do_ltrim. destruct (coll_header Local s ts TL k) as [[h ud] ex].
